@@ -22,7 +22,7 @@ CHECKS = {
         technique='Lean 4 proof over a hand-written executable model, tied to /repo on every run by differential correspondence (compiled Lean driver vs real code on generated inputs) and regenerated source tables; independent Python oracle searches for failing inputs',
         ref='§4 C02'),
     'C03': dict(
-        text='15 theorems: cfg[:] is a function of store lookups with a fixed-length prefix, cfg[i] is list indexing of it, attribute laws (rejected iff invalid name, set/get, delete), named edits keep the view, the store stays well-formed, rejected edits have no effect. Correspondence after every op of exhaustive small-alphabet and random histories (item, slice, attribute, tag, update_callable, materialize), plus an independent reference model as oracle.',
+        text='20 theorems: cfg[:] is a function of store lookups with a fixed-length prefix, cfg[i] is list indexing of it, attribute laws (rejected iff invalid name, set/get, delete), named edits keep the view, the store stays well-formed, rejected edits have no effect; cfg[i] = v replaces exactly slot i; for callables without *args an accepted cfg[a:b:st] = vals is list slice assignment position by position, every step sign (with the bounds of slice.indices + range proved). Correspondence after every op of exhaustive small-alphabet and random histories (item, slice, attribute, tag, update_callable, materialize), plus an independent reference model as oracle.',
         note=TB + "Partial: the slice assign/delete compaction algorithms are validated against Py.Slice and the reference model by correspondence, not proved equal to list semantics. Exception classes are not compared (the property fixes only 'raises').",
         technique='Lean 4 proof over a hand-written executable model, tied to /repo on every run by differential correspondence (compiled Lean driver vs real code on generated inputs) and regenerated source tables; independent Python oracle searches for failing inputs',
         ref='§4 C03'),
